@@ -324,6 +324,11 @@ def gen_docs(chk):
             else:
                 pages.append([c, b"", c16.gen_statement(rng) + b"\n"])
         docs.append(pages)
+    # last image of a stream followed by few tokens with EI look-alikes in strings / names / comments
+    la = c16.gen_lookalike_streams(rng, dense=False)
+    pick = la if chk.tier != "quick" else rng.sample(la, 14)
+    for i in range(0, len(pick), 7):
+        docs.append([[b"BT /F1 12 Tf ET /Fm1 Do " + c] for c in pick[i:i + 7]])
     # damaged content: must be reported
     docs.append([[b"q (abc"], [b"q Q", b"<4x> Tj"], [b"BI /W 1 /H 1 /BPC 8 /CS /G ID \x80\x81"], [b") q"], [b"/A#00 gs (a\rb) Tj"], [b"q Q\n"]])
     return docs
